@@ -41,15 +41,15 @@ impl LocalServer {
 
     // SQL helpers (A8, TRUSTED): bodies are SQL text run through rusqlite; each is ONE SQLite transaction, so a failure or
     // a stop inside one leaves the database as it was.  Their text is hashed; a change makes the check UNDECIDED.
-//@trusted src/server/local/mod.rs :: struct LocalServer
-//@trusted src/server/local/mod.rs :: impl LocalServer :: fn txn
-//@trusted src/server/local/mod.rs :: impl LocalServer :: fn new
-//@trusted src/server/local/mod.rs :: impl LocalServer :: fn get_latest_version_id
+//@watch C11 :: src/server/local/mod.rs :: struct LocalServer
+//@watch C11 :: src/server/local/mod.rs :: impl LocalServer :: fn txn
+//@watch C11 :: src/server/local/mod.rs :: impl LocalServer :: fn new
+//@watch C11 :: src/server/local/mod.rs :: impl LocalServer :: fn get_latest_version_id
     #[verifier::external_body]
     fn get_latest_version_id(&mut self) -> (r: Result<VersionId>)
         ensures final(self).db() == old(self).db(), r matches Ok(v) ==> v == old(self).db().latest
     { unimplemented!() }
-//@trusted src/server/local/mod.rs :: impl LocalServer :: fn get_version_by_parent_version_id
+//@watch C11 :: src/server/local/mod.rs :: impl LocalServer :: fn get_version_by_parent_version_id
     #[verifier::external_body]
     fn get_version_by_parent_version_id(&mut self, parent_version_id: VersionId) -> (r: Result<Option<Version>>)
         ensures final(self).db() == old(self).db(),
@@ -57,7 +57,7 @@ impl LocalServer {
                 && old(self).db().rows.contains(Row { id: v.version_id, parent: v.parent_version_id, seg: v.history_segment@ }),
             r matches Ok(None) ==> forall|row: Row| old(self).db().rows.contains(row) ==> row.parent != parent_version_id,
     { unimplemented!() }
-//@trusted src/server/local/mod.rs :: impl LocalServer :: fn add_version_by_parent_version_id
+//@watch C11 :: src/server/local/mod.rs :: impl LocalServer :: fn add_version_by_parent_version_id
     #[verifier::external_body]
     fn add_version_by_parent_version_id(&mut self, version: Version) -> (r: Result<()>)
         // one transaction: inserts the version row AND makes it the latest version
